@@ -61,6 +61,9 @@ type testCase struct {
 	// (the usual `defer cancel()`), "rpc" = cancelled while the CancelAtRPC-th ResolveLock RPC of the background task is in flight
 	Cancel      string `json:"cancel"`
 	CancelAtRPC int    `json:"cancel_at_rpc"`
+	// store-side refusal of single Flush batches: [[i, class]], the i-th Flush RPC (1-based) is answered with a key error of the
+	// class ("assertion" | "conflict" | "exists") and applies nothing, its sibling batches are applied normally
+	FlushRefuse [][]interface{} `json:"flush_refuse"`
 }
 
 type layoutChange struct {
@@ -98,6 +101,8 @@ type shim struct {
 	resolveNilAt  int
 	cancelAt      int
 	cancelFn      context.CancelFunc
+	flushRefuse   map[int]string
+	refusedNow    []string // classes of the refusals injected since the driver last looked (per op)
 	startTS       uint64   // start ts of the transaction under test (0 until it begins)
 	snapFlushed   []string // keys of snapshot-tier Get/BatchGet requests at startTS that the transaction has already flushed
 }
@@ -132,7 +137,24 @@ func (s *shim) SendRequest(ctx context.Context, addr string, req *tikvrpc.Reques
 			s.splitAt(k)
 		}
 		lost := s.failFlushFrom > 0 && s.nFlush >= s.failFlushFrom
+		refuse, refused := s.flushRefuse[s.nFlush]
+		if refused {
+			s.refusedNow = append(s.refusedNow, refuse)
+		}
 		s.mu.Unlock()
+		if refused {
+			k := fr.Mutations[0].Key
+			ke := &kvrpcpb.KeyError{}
+			switch refuse {
+			case "assertion":
+				ke.AssertionFailed = &kvrpcpb.AssertionFailed{StartTs: fr.StartTs, Key: k, Assertion: kvrpcpb.Assertion_Exist}
+			case "conflict":
+				ke.Conflict = &kvrpcpb.WriteConflict{StartTs: fr.StartTs, ConflictTs: fr.StartTs + 1, ConflictCommitTs: fr.StartTs + 2, Key: k, Primary: fr.PrimaryKey}
+			default:
+				ke.AlreadyExist = &kvrpcpb.AlreadyExist{Key: k}
+			}
+			return &tikvrpc.Response{Resp: &kvrpcpb.FlushResponse{Errors: []*kvrpcpb.KeyError{ke}}}, nil
+		}
 		if lost {
 			return &tikvrpc.Response{Resp: &kvrpcpb.FlushResponse{Errors: []*kvrpcpb.KeyError{{Abort: "injected: store lost"}}}}, nil
 		}
@@ -301,6 +323,7 @@ type result struct {
 	Primary   string            `json:"primary"`
 	TTLEnd    bool              `json:"ttl_running_end"`
 	GCErr     string            `json:"gc_err"`
+	EndRefused []string         `json:"end_refused"`
 	SnapFlushed []string        `json:"snapshot_reads_of_flushed"`
 	EndErr    string            `json:"end_err"`
 	PStart    string            `json:"pstart"`
@@ -342,6 +365,10 @@ func runCase(tc testCase) (res result) {
 		sh.resolveChange[i] = append(sh.resolveChange[i], layoutChange{e[1].(string), unhex(e[2].(string))})
 	}
 	sh.failFlushFrom, sh.resolveNilAt = tc.FailFlushFrom, tc.ResolveNilAt
+	sh.flushRefuse = map[int]string{}
+	for _, e := range tc.FlushRefuse {
+		sh.flushRefuse[int(e[0].(float64))] = e[1].(string)
+	}
 	store, err := tikv.NewTestTiKVStore(sh, mocktikv.NewPDClient(cluster), nil, nil, 0)
 	if err != nil {
 		panic(err)
@@ -489,6 +516,12 @@ func runCase(tc testCase) (res result) {
 			} else {
 				r["err"] = nil
 			}
+			sh.mu.Lock()
+			if len(sh.refusedNow) > 0 {
+				r["refused"] = append([]string{}, sh.refusedNow...)
+				sh.refusedNow = nil
+			}
+			sh.mu.Unlock()
 			res.Results = append(res.Results, r)
 		}
 		err = nil
@@ -528,6 +561,9 @@ func runCase(tc testCase) (res result) {
 		if err != nil {
 			res.EndErr = err.Error()
 		}
+		sh.mu.Lock()
+		res.EndRefused = append([]string{}, sh.refusedNow...)
+		sh.mu.Unlock()
 		ps, pe := committer.VerifPipelinedBounds()
 		res.PStart, res.PEnd = hex.EncodeToString(ps), hex.EncodeToString(pe)
 		res.Primary = hex.EncodeToString(committer.GetPrimaryKey())
